@@ -124,6 +124,27 @@ def ascii_stray_colon(g):
     return False
 
 
+def ascii_quiet_span(g, following):
+    """handler level: a ':' in the noise whose span up to the next CR LF (in the noise or in the traffic behind it) is clean
+    hex of even length with a wrong LRC - the ASCII framer then neither delivers nor raises, so no handler ever resets it
+    (spans with other characters make the framer raise and the handlers reset)"""
+    data = g + following
+    HEX = b'0123456789ABCDEFabcdef'
+    i = data.find(b':')
+    while 0 <= i < len(g):
+        e = data.find(b'\r\n', i)
+        if e < 0:
+            return False
+        text = data[i + 1:e]
+        if len(text) >= 2 and len(text) % 2 == 0 and all(c in HEX for c in text):
+            if ADU._ascii_frame(REQ, data, i, e + 2) is None:
+                return True
+            i = data.find(b':', e)          # a valid frame: the framer moves on
+        else:
+            return False                    # the framer raises: the handler resets its buffer
+    return False
+
+
 BC_POS = {REQ: {15: 6, 16: 6, 20: 2, 21: 2, 23: 10}, RSP: {1: 2, 2: 2, 3: 2, 4: 2, 12: 2, 17: 2, 20: 2, 21: 2, 23: 2, 24: 3, 43: 7}}
 
 
@@ -287,7 +308,7 @@ def handler_level(run, r):
                 cls = CLASSES[i % len(CLASSES)]
                 g = garbage(r, framing, REQ, cls)
                 small_len = {'rtu': 8, 'ascii': 17, 'binary': 9}[framing]
-                nreq = BOUND[framing] // small_len + 12
+                nreq = BOUND[framing] // small_len + 40        # (enough of them beyond the bound also after the delimiter-free filter and the lead-in bursts)
                 reqs, frames = [], []
                 for k in range(nreq):
                     a = 100 + k
@@ -299,18 +320,36 @@ def handler_level(run, r):
                 block = ModbusSequentialDataBlock(0, [(x + 7) & 0xFFFF for x in range(2000)])
                 ctx = ModbusServerContext(slaves=ModbusSlaveContext(hr=block, zero_mode=True), single=True)
                 repo.reset_globals()
-                res = FE.feed(front, framing, ctx, [g] + frames)
+                # one burst of noise - or half a dozen, each followed by a request (an endpoint must not count its way to giving up)
+                raiser = {'ascii': [b':0G03\r\n', b':01\r\n', b':zz\r\n'], 'binary': [b'{}', b'{\x01}'], 'rtu': [bytes([UNIT, 0x2B, 0x0E]), bytes([UNIT, 0x18, 0xFF])]}[framing]
+                bursts = [g]
+                if i % 3 == 2:
+                    # only bursts that make the framer raise (the handlers reset on those; a quiet bad-LRC span would be the recorded finding)
+                    bursts = [r.choice(raiser) for _ in range(r.choice([6, 8, 10]))]
+                    g = bursts[-1]
+                feed, nlead = [], 0
+                for j, gb in enumerate(bursts[:-1]):
+                    feed += [gb, frames[j]]
+                nlead = len(bursts) - 1
+                feed += [bursts[-1]] + frames[nlead:]
+                res = FE.feed(front, framing, ctx, feed)
                 run.count('handler_level_runs:%s' % front)
-                # requests starting beyond the bound
+                if nlead:
+                    run.count('handler_level_multi_burst_runs')
+                g_all = b''.join(bursts)
+                # requests starting beyond the bound after the last burst
                 pos, want, got = 0, [], []
-                for k, f in enumerate(frames):
+                for k, f in enumerate(frames[nlead:]):
                     if pos >= BOUND[framing]:
-                        want.append(ADU.build(framing, UNIT, S.encode({'dir': RSP, 'fc': 3, 'registers': [reqs[k] + 7]})))
-                        got.append(res.per_read[k + 1] if k + 1 < len(res.per_read) else b'')
+                        want.append(ADU.build(framing, UNIT, S.encode({'dir': RSP, 'fc': 3, 'registers': [reqs[nlead + k] + 7]})))
+                        idx = 2 * nlead + 1 + k
+                        got.append(res.per_read[idx] if idx < len(res.per_read) else b'')
                     pos += len(f)
-                regs = regions(framing, g, 1, False, REQ, 0, None, g + b''.join(frames))
+                regs = set()
+                for gb in bursts:
+                    regs |= regions(framing, gb, 1, False, REQ, 0, None, gb + b''.join(frames))
                 ok = want == got
-                case = {'handler': front, 'framing': framing, 'garbage': g, 'class': cls}
+                case = {'handler': front, 'framing': framing, 'garbage': g, 'class': cls, 'bursts': len(bursts)}
                 run.case(h64(('handler', front, framing, g)), True,
                          sample={'level': 'handler', 'front': front, 'framing': framing, 'class': cls, 'garbage': g.hex()[:60], 'requests_beyond_bound': len(want),
                                  'verdict': 'all answered' if ok else 'not all answered'}, sample_class=('handler', front, framing))
@@ -319,10 +358,8 @@ def handler_level(run, r):
                 for slug in regs:
                     run.region('ascii-bad-lrc-blocks-forever' if slug == 'ascii-stray-colon' else slug)
                 missing = sum(1 for w, x in zip(want, got) if w != x)
-                if 'ascii-stray-colon' in regs and not res.escaped:
-                    run.known('ascii-bad-lrc-blocks-forever', "a ':' span with a bad LRC is kept forever and blocks every later frame", case)
-                    continue
-                if front.startswith('tw') and framing == 'ascii' and 'ascii-stray-colon' in regs:
+                quiet = framing == 'ascii' and any(ascii_quiet_span(gb, b''.join(frames[:4])) for gb in bursts)
+                if 'ascii-stray-colon' in regs and quiet:
                     run.known('ascii-bad-lrc-blocks-forever', "a ':' span with a bad LRC is kept forever and blocks every later frame", case)
                     continue
                 run.violation('handler:%s/%s:not-answered-after-bound' % (front, framing), case,
